@@ -286,11 +286,12 @@ def step_correspondence(prop, tier, seed):
         os.makedirs(d, exist_ok=True)
         cp = os.path.join(d, f"corpus_{prop['id']}.txt")
         open(cp, "w").write("\n".join(corpus) + "\n")
-        comp = prop["jobs"][0]["component"]
-        rc, out = run_vh([comp, seed, 0, "--replay", cp], timeout=1200)
-        if rc != 0:
-            fails.append(Failure("correspondence", "corpus replay", out[-2000:]))
-        allcases += parse_lines(out)
+        # every component replays the lines that start with its own component number
+        for comp in dict.fromkeys(j["component"] for j in prop["jobs"]):
+            rc, out = run_vh([comp, seed, 0, "--replay", cp], timeout=1200)
+            if rc != 0:
+                fails.append(Failure("correspondence", f"corpus replay ({comp})", out[-2000:]))
+            allcases += parse_lines(out)
     for job in prop["jobs"]:
         n = job[tier]
         per = max(1, n // NPROC)
